@@ -32,6 +32,18 @@
 //!   `Checked<Script>::check_predicates` accepts the reference owner and refuses every
 //!   flipped owner.
 //!
+//! HISTORY family (one in-memory Create value, prepared -> edited -> re-prepared): all
+//!   sequences of length <= 2 (quick) / 3 (thorough) over {next salt, toggle slot 0/2/3,
+//!   modify slot 0/2, flip/append/drop the last code byte, precompute} × 3 preparations
+//!   (builder finalize, into_checked_basic round trip, no metadata = control) × 5 codes ×
+//!   3 slot sets; edits go through the public `*_mut` accessors, the reference follows
+//!   them on plain values. Afterwards: the transaction still carrying the prepared
+//!   value's output is refused (unless the edits cancelled out); with the output set to
+//!   the reference id/state root of the EDITED value it is accepted, deployed under that
+//!   id (nothing under any earlier id) and CROO gives the reference root.
+//!   Keys `C15:create:edited-tx-rejected`, `C15:create:edited-tx-stale-output-accepted`,
+//!   `C15:vm:deploy:stale-id`.
+//!
 //! KEYS: `C15:lib:<function>`, `C15:builder:contract_created`, `C15:create:<class>`,
 //!   `C15:vm:deploy:<class>`, `C15:vm:croo:<class>`, `C15:vm:check_predicates:<class>`,
 //!   `C15:lib:check_signatures:<class>`. A probe whose expected value is *derived* from a
@@ -78,6 +90,7 @@ use fuel_types::{
 use fuel_vm::{
     checked_transaction::{
         CheckPredicateParams,
+        Checked,
         CheckPredicates,
         EstimatePredicates,
         IntoChecked,
@@ -822,11 +835,38 @@ fn probe_full(code: &CodeInfo, si: &SlotInfo, uni_len: usize, salt_i: u8, params
         }
     }
 
-    // -- deployment stores the contract under the reference id with exactly the slots
+    // -- deployment stores the contract under the reference id with exactly the slots;
+    //    CROO over that storage writes the reference code root
     let Some(checked) = checked else {
         acc.out("deploy:skipped(reference tx refused)");
         return
     };
+    deploy_and_croo(checked, &code.bytes, &code.root, &si.slots, &id, &[], params, &report, acc);
+
+    if (code.len == 7 || code.len == CHUNK + 1 || code.len == 2 * CHUNK - 3) && code.pat == 2 && si.valpat == 0 && si.mask == (1 << uni_len) - 1 && salt_i == 2 {
+        acc.samples.push(json!({
+            "case": case, "reference": {"code_root": hx(&code.root), "state_root": hx(&si.root), "contract_id": hx(&id), "predicate_owner_of_code": hx(&ref_owner(&code.root))},
+            "observed": "root_from_code, initial_state_root, Contract::id, builder output+metadata, basic checks (1 accept, 6 refusals), deploy, ContractsRawCode/ContractsState, CROO all equal to the reference",
+        }));
+    }
+}
+
+/// Deploy `checked` into an empty storage and compare what the VM stored, and what
+/// CROO then reports, with the reference values of (code, slots, id). `old_ids` must
+/// hold nothing afterwards.
+#[allow(clippy::too_many_arguments)]
+fn deploy_and_croo(
+    checked: Checked<fuel_tx::Create>,
+    code: &[u8],
+    code_root: &H256,
+    slots: &[(H256, H256)],
+    id: &H256,
+    old_ids: &[H256],
+    params: &ConsensusParameters,
+    report: &dyn Fn(&mut Acc, &str, String),
+    acc: &mut Acc,
+) {
+    let id = *id;
     let mut t: Tr = Transactor::new(MemoryInstance::new(), MemoryStorage::default(), InterpreterParams::new(0, params));
     let r = guard::catch_any(|| t.deploy(checked).map(|_| ()));
     if !matches!(r, Ok(Ok(()))) {
@@ -837,15 +877,18 @@ fn probe_full(code: &CodeInfo, si: &SlotInfo, uni_len: usize, salt_i: u8, params
     acc.out("deploy:ok");
     let st: &MemoryStorage = t.as_ref();
     let cid = ContractId::from(id);
-    let stored = guard::catch_any(|| {
-        StorageInspect::<ContractsRawCode>::get(st, &cid).map(|o| {
-            o.map(|c| {
-                let c: &Contract = &c;
-                AsRef::<[u8]>::as_ref(c).to_vec()
+    let code_at = |i: &H256| {
+        guard::catch_any(|| {
+            StorageInspect::<ContractsRawCode>::get(st, &ContractId::from(*i)).map(|o| {
+                o.map(|c| {
+                    let c: &Contract = &c;
+                    AsRef::<[u8]>::as_ref(c).to_vec()
+                })
             })
         })
-    });
-    if !matches!(&stored, Ok(Ok(Some(c))) if *c == code.bytes) {
+    };
+    let stored = code_at(&id);
+    if !matches!(&stored, Ok(Ok(Some(c))) if c == code) {
         report(
             acc,
             "C15:vm:deploy:code_not_under_reference_id",
@@ -859,11 +902,29 @@ fn probe_full(code: &CodeInfo, si: &SlotInfo, uni_len: usize, salt_i: u8, params
             ),
         );
     }
+    for old in old_ids {
+        let o = code_at(old);
+        if !matches!(&o, Ok(Ok(None))) {
+            report(
+                acc,
+                "C15:vm:deploy:stale-id",
+                format!(
+                    "after deploying the edited transaction (reference id {}) ContractsRawCode holds {} under the id {} of an earlier value of the same transaction",
+                    hx(&id),
+                    match &o {
+                        Ok(Ok(Some(c))) => format!("{} bytes", c.len()),
+                        o => short(o),
+                    },
+                    hx(old)
+                ),
+            );
+        }
+    }
     let observed: BTreeSet<(H256, H256, Vec<u8>)> = st
         .all_contract_state()
         .map(|(k, v)| (**k.contract_id(), **k.state_key(), v.as_ref().to_vec()))
         .collect();
-    let expected: BTreeSet<(H256, H256, Vec<u8>)> = si.slots.iter().map(|(k, v)| (id, *k, v.to_vec())).collect();
+    let expected: BTreeSet<(H256, H256, Vec<u8>)> = slots.iter().map(|(k, v)| (id, *k, v.to_vec())).collect();
     if observed != expected {
         report(
             acc,
@@ -878,7 +939,6 @@ fn probe_full(code: &CodeInfo, si: &SlotInfo, uni_len: usize, salt_i: u8, params
         );
     }
 
-    // -- CROO over that storage writes the reference code root
     let storage = st.clone();
     let script: Vec<u8> = [
         op::movi(0x10, 32),
@@ -914,19 +974,316 @@ fn probe_full(code: &CodeInfo, si: &SlotInfo, uni_len: usize, salt_i: u8, params
     }
     let hp = vmkit::reg(&vm, RegId::HP);
     let got: Vec<u8> = vm.memory().read(hp, 32usize).map(|s| s.to_vec()).unwrap_or_default();
-    if got != code.root {
-        report(acc, "C15:vm:croo:wrong_root", format!("CROO wrote {} but the reference code root is {}", hx(&got), hx(&code.root)));
+    if got != code_root {
+        report(acc, "C15:vm:croo:wrong_root", format!("CROO wrote {} but the reference code root is {}", hx(&got), hx(code_root)));
         acc.out("croo:DIFFERS");
     } else {
         acc.out("croo:agrees");
     }
+}
 
-    if (code.len == 7 || code.len == CHUNK + 1 || code.len == 2 * CHUNK - 3) && code.pat == 2 && si.valpat == 0 && si.mask == (1 << uni_len) - 1 && salt_i == 2 {
-        acc.samples.push(json!({
-            "case": case, "reference": {"code_root": hx(&code.root), "state_root": hx(&si.root), "contract_id": hx(&id), "predicate_owner_of_code": hx(&ref_owner(&code.root))},
-            "observed": "root_from_code, initial_state_root, Contract::id, builder output+metadata, basic checks (1 accept, 6 refusals), deploy, ContractsRawCode/ContractsState, CROO all equal to the reference",
-        }));
+// ------------------------------------------------------------------ history family
+//
+// One in-memory `Create` value is prepared (metadata cached by the builder's finalize,
+// by a complete into_checked_basic round trip, or — control — not at all), then edited
+// through the public `*_mut` accessors, optionally re-prepared (`precompute`) between
+// edits, and finally checked and deployed. All action sequences of length <= k over
+// `HIST_ACTIONS`, on a reduced set of base values. The reference follows the edits on
+// plain values; whatever the history, the library and the VM must use the identifiers
+// of the value the transaction holds NOW.
+
+const HIST_ACTIONS: [&str; 10] = [
+    "salt:=next",
+    "slot0:toggle",
+    "slot2:toggle",
+    "slot3:toggle",
+    "slot0:modify",
+    "slot2:modify",
+    "code:flip-last-byte",
+    "code:append-byte",
+    "code:drop-last-byte",
+    "precompute",
+];
+const HIST_PREPS: [&str; 3] = ["builder(metadata cached)", "checked-round-trip(metadata cached)", "control(no metadata)"];
+const HIST_CODES: [(usize, u8); 5] = [(0, 0), (8, 2), (13, 2), (CHUNK + 5, 2), (2 * CHUNK - 3, 1)];
+const HIST_MASKS: [u64; 3] = [0, 0b0101, 0b1111];
+
+#[derive(Clone)]
+struct Val {
+    code: Vec<u8>,
+    slots: BTreeMap<H256, H256>,
+    salt: u8,
+}
+
+impl Val {
+    fn slots_vec(&self) -> Vec<(H256, H256)> {
+        self.slots.iter().map(|(k, v)| (*k, *v)).collect()
     }
+
+    fn ids(&self) -> (H256, H256, H256) {
+        let root = ref_code_root(&self.code);
+        let state = ref_state_root(&self.slots_vec());
+        (ref_contract_id(&salt_of(self.salt), &root, &state), root, state)
+    }
+}
+
+fn set_created_output(tx: &mut fuel_tx::Create, id: &H256, state: &H256) {
+    for o in tx.outputs_mut().iter_mut() {
+        if matches!(o, Output::ContractCreated { .. }) {
+            *o = Output::contract_created(ContractId::from(*id), Bytes32::from(*state));
+        }
+    }
+}
+
+fn probe_history(base: usize, seq: &[u64], params: &ConsensusParameters, acc: &mut Acc) {
+    use fuel_tx::{
+        field::{
+            BytecodeWitnessIndex,
+            Salt as SaltField,
+            StorageSlots,
+            Witnesses,
+        },
+        Cacheable,
+    };
+    let uni = slot_universe(4);
+    let prep = base % HIST_PREPS.len();
+    let (len, pat) = HIST_CODES[(base / HIST_PREPS.len()) % HIST_CODES.len()];
+    let mask = HIST_MASKS[base / HIST_PREPS.len() / HIST_CODES.len()];
+    let case = json!({"phase": "history", "base": base, "actions": seq});
+    let desc = format!(
+        "Create prepared by {} with code len={len} pattern={pat}, slots mask={mask:#b}, salt #0, then [{}]",
+        HIST_PREPS[prep],
+        seq.iter().map(|a| HIST_ACTIONS[*a as usize]).collect::<Vec<_>>().join(", ")
+    );
+    let report = |acc: &mut Acc, key: &str, what: String| acc.viol(key, format!("{desc}: {what}"), &case);
+    acc.evals += 1;
+
+    let mut val = Val {
+        code: code_bytes(len, pat),
+        slots: slots_of(&uni, mask, 0).into_iter().collect(),
+        salt: 0,
+    };
+    let (id0, _, state0) = val.ids();
+    let chain_id = params.chain_id();
+
+    // ---- the prepared transaction
+    let built = guard::catch_any(|| {
+        let hand = Transaction::create(
+            0,
+            Policies::new().with_max_fee(0),
+            Salt::from(salt_of(0)),
+            to_storage_slots(&val.slots_vec()),
+            vec![fee_input(params)],
+            vec![Output::contract_created(ContractId::from(id0), Bytes32::from(state0))],
+            vec![Witness::from(val.code.clone()), Witness::from(vec![])],
+        );
+        match prep {
+            0 => {
+                let mut b = TransactionBuilder::create(Witness::from(val.code.clone()), Salt::from(salt_of(0)), to_storage_slots(&val.slots_vec()));
+                b.with_params(params.clone());
+                b.add_input(fee_input(params));
+                b.add_witness(Witness::from(vec![]));
+                b.add_contract_created();
+                Ok(b.finalize_without_signature())
+            }
+            1 => hand.into_checked_basic(BlockHeight::new(0), params).map(|c| {
+                let (tx, _): (fuel_tx::Create, _) = c.into();
+                tx
+            }),
+            _ => Ok(hand),
+        }
+    });
+    let mut tx = match built {
+        Ok(Ok(tx)) => tx,
+        other => {
+            // already reported by the product family (reference output refused / builder)
+            acc.out(&format!("history:base-not-prepared:{}", short(&other.map(|r| r.map(|_| ()))).chars().take(40).collect::<String>()));
+            return
+        }
+    };
+    if (prep < 2) != tx.metadata().is_some() {
+        panic!("harness: preparation {} left metadata {:?}", HIST_PREPS[prep], tx.metadata().is_some());
+    }
+
+    // ---- the edits, on the transaction and on the reference value
+    let mut old_ids = vec![id0];
+    let mut effective = 0;
+    for a in seq {
+        let before = (val.code.clone(), val.slots.clone(), val.salt);
+        match HIST_ACTIONS[*a as usize] {
+            "salt:=next" => {
+                val.salt = (val.salt + 1) % 3;
+                *tx.salt_mut() = Salt::from(salt_of(val.salt));
+            }
+            act @ ("slot0:toggle" | "slot2:toggle" | "slot3:toggle") => {
+                let i = (act.as_bytes()[4] - b'0') as usize;
+                let key = uni[i];
+                if val.slots.remove(&key).is_some() {
+                    tx.storage_slots_mut().as_mut().retain(|s| **s.key() != key);
+                } else {
+                    let v = slot_value(i, 0);
+                    val.slots.insert(key, v);
+                    tx.storage_slots_mut().as_mut().push(StorageSlot::new(Bytes32::from(key), Bytes32::from(v)));
+                }
+            }
+            act @ ("slot0:modify" | "slot2:modify") => {
+                let i = (act.as_bytes()[4] - b'0') as usize;
+                let key = uni[i];
+                if let Some(v) = val.slots.get_mut(&key) {
+                    *v = if *v == slot_value(i, 0) { slot_value(i, 2) } else { slot_value(i, 0) };
+                    let nv = *v;
+                    let mut r = tx.storage_slots_mut();
+                    for s in r.as_mut().iter_mut() {
+                        if **s.key() == key {
+                            *s = StorageSlot::new(Bytes32::from(key), Bytes32::from(nv));
+                        }
+                    }
+                }
+            }
+            act @ ("code:flip-last-byte" | "code:append-byte" | "code:drop-last-byte") => {
+                match act {
+                    "code:flip-last-byte" => {
+                        if let Some(b) = val.code.last_mut() {
+                            *b ^= 0xff;
+                        }
+                    }
+                    "code:append-byte" => val.code.push(0x5a),
+                    _ => {
+                        val.code.pop();
+                    }
+                }
+                let idx = *tx.bytecode_witness_index() as usize;
+                tx.witnesses_mut()[idx] = Witness::from(val.code.clone());
+            }
+            _ => {
+                let r = guard::catch_any(|| tx.precompute(&chain_id));
+                if !matches!(r, Ok(Ok(()))) {
+                    report(acc, "C15:create:precompute-failed", short(&r));
+                    return
+                }
+            }
+        }
+        if before != (val.code.clone(), val.slots.clone(), val.salt) {
+            effective += 1;
+            old_ids.push(val.ids().0);
+        }
+    }
+    let (id, root, state) = val.ids();
+    old_ids.retain(|o| *o != id);
+    old_ids.sort();
+    old_ids.dedup();
+    acc.out(&format!("history:effective-edits={effective}"));
+    if effective > 0 {
+        acc.fps.insert(hash64(&("hist", prep, id0, id, seq)));
+    }
+
+    // ---- (b) the edited transaction still carrying the output of the prepared value
+    let stale_must_pass = id == id0 && state == state0;
+    let r = guard::catch_any(|| tx.clone().into_checked_basic(BlockHeight::new(0), params));
+    match (&r, stale_must_pass) {
+        (Ok(Ok(_)), true) | (Ok(Err(_)), false) => acc.out(if stale_must_pass { "history:unchanged-value:accepted" } else { "history:stale-output:refused" }),
+        (Ok(Ok(_)), false) => {
+            report(
+                acc,
+                "C15:create:edited-tx-stale-output-accepted",
+                format!(
+                    "the transaction now has reference id {} / state root {} but is accepted with the ContractCreated output {} / {} of the value it was prepared with",
+                    hx(&id),
+                    hx(&state),
+                    hx(&id0),
+                    hx(&state0)
+                ),
+            );
+            acc.out("history:stale-output:ACCEPTED");
+        }
+        (other, _) => {
+            report(
+                acc,
+                "C15:create:edited-tx-rejected",
+                format!("edits returned to the prepared value (output is the reference output) but basic checks gave {}", short(&other.as_ref().map(|r| r.as_ref().map(|_| ())))),
+            );
+        }
+    }
+    // a wrongly accepted transaction: where does the VM put it?
+    if let (Ok(Ok(c)), false) = (r, stale_must_pass) {
+        let mut t: Tr = Transactor::new(MemoryInstance::new(), MemoryStorage::default(), InterpreterParams::new(0, params));
+        if matches!(guard::catch_any(|| t.deploy(c).map(|_| ())), Ok(Ok(()))) {
+            let st: &MemoryStorage = t.as_ref();
+            let under_ref = guard::catch_any(|| StorageInspect::<ContractsRawCode>::get(st, &ContractId::from(id)).map(|o| o.is_some()));
+            if !matches!(under_ref, Ok(Ok(true))) {
+                report(
+                    acc,
+                    "C15:vm:deploy:stale-id",
+                    format!("deploy of the accepted transaction stored nothing under the reference id {} of the code/slots/salt it carries", hx(&id)),
+                );
+            }
+        }
+    }
+
+    // ---- (a) output fixed up to the reference values of the edited value
+    set_created_output(&mut tx, &id, &state);
+    let checked = match guard::catch_any(|| tx.into_checked_basic(BlockHeight::new(0), params)) {
+        Ok(Ok(c)) => {
+            acc.out("history:fixed-up-output:accepted");
+            c
+        }
+        other => {
+            report(
+                acc,
+                "C15:create:edited-tx-rejected",
+                format!(
+                    "ContractCreated output set to the reference id {} / state root {} of the edited value, basic checks gave {}",
+                    hx(&id),
+                    hx(&state),
+                    short(&other.map(|r| r.map(|_| ())))
+                ),
+            );
+            acc.out("history:fixed-up-output:REFUSED");
+            return
+        }
+    };
+    deploy_and_croo(checked, &val.code, &root, &val.slots_vec(), &id, &old_ids, params, &report, acc);
+
+    if prep == 0 && len == CHUNK + 5 && mask == 0b1111 && [&[0u64, 9][..], &[9, 6], &[2, 7]].contains(&seq) {
+        acc.samples.push(json!({"case": case, "history": desc, "reference_id_prepared": hx(&id0), "reference_id_now": hx(&id),
+            "observed": "stale output refused; fixed-up output accepted; deployed under the reference id of the edited value, nothing under earlier ids; CROO = reference root"}));
+    }
+}
+
+fn explore_history(ctx: &Ctx, params: &ConsensusParameters) {
+    let k: u32 = ctx.pick(2, 3);
+    let n_bases = (HIST_PREPS.len() * HIST_CODES.len() * HIST_MASKS.len()) as u64;
+    let n_seq = space::seq_count(HIST_ACTIONS.len() as u64, k);
+    let total = n_seq * n_bases;
+    let skipped = std::sync::atomic::AtomicU64::new(0);
+    space::par_chunks(
+        total,
+        n_bases,
+        Acc::default,
+        |i, acc| {
+            if ctx.out_of_time() {
+                skipped.fetch_add(1, std::sync::atomic::Ordering::Relaxed);
+                return
+            }
+            // sequences slowest (shortest first), bases fastest (simplest first)
+            let seq = space::seq_at(HIST_ACTIONS.len() as u64, k, i / n_bases);
+            probe_history((i % n_bases) as usize, &seq, params, acc);
+        },
+        |acc| acc.flush(ctx),
+    );
+    let skipped = skipped.into_inner();
+    if skipped > 0 {
+        ctx.cap(format!("time budget: {skipped} of {total} histories not run"));
+    }
+    ctx.set(
+        "history",
+        json!({
+            "actions": HIST_ACTIONS, "max_sequence_length": k, "sequences": n_seq,
+            "preparations": HIST_PREPS, "base_codes(len,pattern)": HIST_CODES, "base_slot_masks": HIST_MASKS,
+            "histories": total, "histories_completed": total - skipped,
+            "final_probes": "stale output refused (or accepted when the edits cancel out); output fixed up to the reference -> accepted; deploy under the reference id, nothing under earlier ids; CROO",
+        }),
+    );
 }
 
 // ------------------------------------------------------------------ driver
@@ -996,6 +1353,8 @@ fn explore(ctx: &Ctx) {
     // order for the product: mask-major within a value pattern is already simplest first
     head.flush(ctx);
 
+    explore_history(ctx, &params);
+
     let n_codes = lens.len() as u64 * pats as u64;
     let per_code = slot_infos.len() as u64 * n_salts as u64;
     let done = std::sync::atomic::AtomicU64::new(0);
@@ -1037,6 +1396,10 @@ fn replay(case: &Value, ctx: &Ctx) {
     let mut acc = Acc::default();
     match case["phase"].as_str() {
         Some("empty") => empty_contract_id(&mut acc),
+        Some("history") => {
+            let seq: Vec<u64> = case["actions"].as_array().unwrap().iter().map(|v| v.as_u64().unwrap()).collect();
+            probe_history(case["base"].as_u64().unwrap() as usize, &seq, &params, &mut acc);
+        }
         Some("helper") => {
             probe_helper(&mut acc);
         }
